@@ -1,8 +1,8 @@
 SPECIFICATION Spec
-CONSTANT Cfg <- MCCfg3x2a2
+CONSTANT Cfg <- MCCfg2x3a2
 CONSTANT PostSteps = 1
 CONSTANT MaxLim = 3
-CONSTANT WithDefault = FALSE
+CONSTANT WithDefault = TRUE
 CONSTRAINT Bounded
 VIEW View
 INVARIANT TypeOK
